@@ -157,7 +157,7 @@ CHECKS = {
     "C16": dict(
         level="fault_enumeration",
         rule=("part A: for generated command sets (5 control types, 8/16-bit indices, 1-3 headers) and both modes, the COMPLETE catalogue of single-change echo mutations (every status code, every value byte, index, dropped/duplicated/swapped object, prefix width, variation, dropped/swapped/extra header, empty, truncated, IIN2 rejection) applied to the first reply and, for select-before-operate, to the second; "
-              "part B: every request kind (read, direct operate, select+operate, 3 time-sync procedures, cold/warm restart, dead-band write, link status, empty-response, file read through a recording FileReader [open, two blocks, close], the same after authentication [5 steps], directory read [listing cut inside a descriptor], file info, file authenticate / open / write block / write last block / close) x every protocol step x {no failure, reply lost, reply lost with channel chatter, link error, channel disabled, association removed, association removed and the reply then arrives; for file operations also 8 replies that do not grant the step: failure status or zero key, other variation, truncated, IIN2 rejection, empty, two headers, wrong handle, wrong block}; part Q: queue full and no connection. "
+              "part B: every request kind (read, direct operate, select+operate, 3 time-sync procedures, cold/warm restart, dead-band write, link status, empty-response, file read through a recording FileReader [open, two blocks, close], the same after authentication [5 steps], directory read [listing cut inside a descriptor], file info, file authenticate / open / write block / write last block / close) x every protocol step x {no failure, reply lost, reply lost with channel chatter, link error, channel disabled, association removed, association removed and the reply then arrives, master task cancelled (runtime shutdown); for file operations also 8 replies that do not grant the step: failure status or zero key, other variation, truncated, IIN2 rejection, empty, two headers, wrong handle, wrong block}; part Q: queue full and no connection. "
               "distinct = (part, mode, mutation class, step) and (request kind, step, failure) tuples"),
         runs=[dict(check="c16", scale=6, timeout_s=900)],
         required=["faithful_echo_ok", "mutated_echo_rejected", "operate_withheld_ok", "operate_matches_select_ok", "catalogue_runs", "faithful_exchange_ok", "failure_reported_in_time", "failure_points_enumerated", "queue_full_rejected_ok", "no_connection_rejected_ok", "file_close_failure_after_completion_ok",
